@@ -270,6 +270,11 @@ def lib (name : String) (args : List Value) (w : World) : LibTree World :=
       | some n => let xs := (w.arr? r).getD []
                   if n < xs.length then ok v (w.setCell r (.arr (xs.set n v))) else fail .null w
       | none => fail .null w
+  | "arraySet", [.arr r, i] =>
+      match asIndex i with
+      | some n => let xs := (w.arr? r).getD []
+                  if n < xs.length then ok .null (w.setCell r (.arr (xs.set n .null))) else fail .null w
+      | none => fail .null w
   | "arraySet", _ => fail .null w
   | "arrayPop", [.arr r] =>
       let xs := (w.arr? r).getD []
@@ -285,6 +290,10 @@ def lib (name : String) (args : List Value) (w : World) : LibTree World :=
       else match v with
         | .fn _ => indexOfFn v xs 0 w
         | _ => match indexOfVal w v xs 0 with | some r => ok (.num r) w | none => fail .null w
+  | "arrayIndexOf", [.arr r] =>
+      let xs := (w.arr? r).getD []
+      if xs.length == 0 then fail (.num (-1)) w
+      else match indexOfVal w .null xs 0 with | some r => ok (.num r) w | none => fail .null w
   | "arrayIndexOf", _ => fail (.num (-1)) w
   | "objectNew", kvs =>
       match objNew kvs [] with
@@ -300,6 +309,7 @@ def lib (name : String) (args : List Value) (w : World) : LibTree World :=
   | "systemGlobalGet", [.str n, d] => .globalGet (Name.ofString n) w fun v w1 => ok (v.getD d) w1
   | "systemGlobalGet", _ => fail .null w
   | "systemGlobalSet", [.str n, v] => .globalSet (Name.ofString n) v w fun w1 => ok v w1
+  | "systemGlobalSet", [.str n] => .globalSet (Name.ofString n) .null w fun w1 => ok .null w1
   | "systemGlobalSet", _ => fail .null w
   | "systemPartial", f :: a :: as =>
       match f with
@@ -307,10 +317,14 @@ def lib (name : String) (args : List Value) (w : World) : LibTree World :=
       | _ => fail .null w
   | "systemPartial", _ => fail .null w
   | "systemCompare", [a, b] => match compare? w a b with | some c => ok (.num c) w | none => fail .null w
+  | "systemCompare", [a] => match compare? w a .null with | some c => ok (.num c) w | none => fail .null w
+  | "systemCompare", [] => ok (.num 0) w
   | "systemCompare", _ => fail .null w
   | "systemType", [v] => ok (.str (typeName v)) w
+  | "systemType", [] => ok (.str "null") w                              -- missing untyped argument = null
   | "systemType", _ => fail .null w
   | "systemBoolean", [v] => ok (.bool (truthy v w)) w
+  | "systemBoolean", [] => ok (.bool false) w
   | "systemBoolean", _ => fail .null w
   | _, _ => fail .null w
 
